@@ -495,9 +495,6 @@ package actor
 //@ func (*Context).onKill
 //@   trusted
 //@   modifies anyold, gmap(told), gmap(toldn), gmap(tells), gmap(unregistered), gmap(unsuball), gmap(published), gmap(resumes), gmap(pauses), gmap(failures), ghost(calls_behavior)
-//@ func (*Context).onSupervise
-//@   trusted
-//@   modifies anyold, gmap(told), gmap(toldn), gmap(tells), gmap(published), gmap(resumes), gmap(pauses), gmap(failures)
 //@ func (*Context).onCommand
 //@   trusted
 //@   modifies anyold, gmap(published), gmap(resumes), gmap(pauses)
@@ -531,10 +528,11 @@ package actor
 //@   requires ctxwf(c) && watchersOK(c) && envelop != nil && ctxwf(c.system.Context) && schedok(c) && zombieNoJobs(c)
 //@   requires len(c.behaviorStack.behaviors) > 0 && c.behaviorStack.behaviors[len(c.behaviorStack.behaviors) - 1] != nil
 //@   requires !nilptr(envMessage(envelop)) && envSender(envelop) != nil && !nilptr(envSender(envelop))
+//@   requires typeis(envMessage(envelop), "*actor.supervisionContext") ==> superviseOK(c, unboxed(envMessage(envelop), "*actor.supervisionContext"))
 //@   requires typeis(envMessage(envelop), "*actor.SchedulerMessage") ==> !typeis(unboxed(envMessage(envelop), "*actor.SchedulerMessage").Message, "*vivid.OnKilled")
 //@   requires typeis(envMessage(envelop), "*vivid.OnKilled") ==> unboxed(envMessage(envelop), "*vivid.OnKilled").Ref != nil &&
 //@            (typeis(unboxed(envMessage(envelop), "*vivid.OnKilled").Ref, "*actor.Ref") ==> !nilptr(unboxed(envMessage(envelop), "*vivid.OnKilled").Ref))
-//@   modifies anyold, c.envelop, gmap(deleted), gmap(selftold), gmap(told), gmap(toldn), gmap(tells), gmap(unregistered), gmap(unsuball), gmap(published), gmap(resumes), gmap(pauses), gmap(failures), ghost(calls_behavior)
+//@   modifies anyold, c.envelop, gmap(consulted), gmap(deleted), gmap(selftold), gmap(told), gmap(toldn), gmap(tells), gmap(unregistered), gmap(unsuball), gmap(published), gmap(resumes), gmap(pauses), gmap(failures), ghost(calls_behavior)
 // a dead letter that itself cannot be delivered (the root has stopped) is dropped: no further work
 //@   ensures  old(deadFor(c, envelop)) && typeis(envMessage(envelop), "ves.DeathLetterEvent") ==>
 //@            (forall d *Context, t mathint :: gcount(selftold, d, t) == old(gcount(selftold, d, t))) && ghost(calls_behavior) == old(ghost(calls_behavior))
@@ -669,3 +667,30 @@ package actor
 //@ loop (*System).removeFuturesByAgentPath#2
 //@   modifies anyold, gmap(chclosed), gmap(piped), gmap(pipedn), ghost(calls_closer)
 //@   invariant regfut(s) && !held(s.futureLock)
+
+// ---------------------------------------------------------------------------------------------
+// C08: a supervisor handling one failure report. The strategy (its own, else the system's) is consulted EXACTLY
+// once; every target it names gets one pause command (a system NoneArgsCommandMessage); and applyDecision is
+// handed exactly the targets and the decision the strategy returned (what it does with them is its contract).
+//@ func supervise
+//@   trusted
+//@   modifies supervisionContext.supervisorLogger, supervisionContext.supervisorChildren
+//@ pure superviseOK(c *Context, sc *supervisionContext) bool =
+//@     c.parent != nil && sc != nil && c.system.options != nil && (c.options.SupervisionStrategy != nil || c.system.options.SupervisionStrategy != nil) &&
+//@     (lvl1(sc) != nil ==> refsNonNil(lvl1(sc).targets) && lvl1(sc) != sc &&
+//@        (lvl2(sc) != nil ==> refsNonNil(lvl2(sc).targets) && lvl2(sc) != sc && lvl2(sc).subSupervisionContext == nil))
+//@ func (*Context).onSupervise
+//@   ghostvar tarr int
+//@   ghostvar tlen int
+//@   ghostvar dec int
+//@   callspec Supervise sets tarr = arr(result.0), tlen = len(result.0), dec = result.1
+//@   callspec applyDecision requires arr(arg2) == tarr && len(arg2) == tlen && arg3 == dec && arg1 == c
+//@   requires ctxwf(c) && superviseOK(c, supervisionContext)
+//@   modifies supervisionContext.supervisorLogger, supervisionContext.supervisorChildren, supervisionContext.targets, supervisionContext.decisionReason,
+//@            gmap(consulted), gmap(told), gmap(toldn), gmap(tells), gmap(pauses)
+//@   ensures  gcount(consulted, 0) == old(gcount(consulted, 0)) + 1
+//@ loop (*Context).onSupervise#1
+//@   modifies gmap(told), gmap(toldn), gmap(tells)
+//@   invariant -1 <= rangeindex && rangeindex < len(targets)
+//@   invariant gcount(consulted, 0) == old(gcount(consulted, 0)) + 1 && arr(targets) == tarr && len(targets) == tlen && decision == dec
+//@   invariant refsNonNil(targets)
